@@ -79,6 +79,49 @@ func init() {
 		},
 	})
 	register(&Property{
+		ID: "C14",
+		Explanation: "Decides both halves of the protocol: reader side (list-before-index) — in every function of the program that calls LoadIndex, each snapshot lookup (FindAll, FindLatest, FindSnapshot, ForAllSnapshots, or a wrapper that forwards its lister parameter to one of them; lookups inside function literals count from the literal's creation) either cannot execute after LoadIndex or takes its snapshot list from restic.MemorizeList(…, SnapshotFile) evaluated before LoadIndex; Checker.snapshots is only ever the memorized list and Checker.LoadIndex is preceded by a successful LoadSnapshots (frozen exception: prune, which holds the exclusive lock); writer side — flush-order, pack-before-index and snapshot-after-upload of C11. So a listed snapshot was completely indexed before the index was read. Not decided: backends with listing delay beyond what the protocol assumes.",
+		Assumptions: commonAssumptions,
+		Technique:   "static analysis: per-function ordering of LoadIndex vs. snapshot lookups with value-origin of the lister argument and wrapper summaries (go/ssa)",
+		AllConfigs:  true,
+		Run: func(c *eng.Ctx) {
+			ruleListBeforeIndex(c)
+			ruleFlushOrder(c)
+			rulePackBeforeIndex(c)
+			ruleSnapshotAfterUpload(c)
+		},
+		Controls: []Control{
+			{Name: "stats-loads-index-before-listing", File: "cmd/restic/cmd_stats.go",
+				Old: "	snapshotLister, err := restic.MemorizeList(ctx, repo, restic.SnapshotFile)\n	if err != nil {\n		return err\n	}\n", New: "	if err := repo.LoadIndex(ctx, printer); err != nil {\n		return err\n	}\n	snapshotLister, err := restic.MemorizeList(ctx, repo, restic.SnapshotFile)\n	if err != nil {\n		return err\n	}\n", Rule: "list-before-index"},
+			{Name: "find-uses-live-repo-as-lister", File: "cmd/restic/cmd_find.go",
+				Old: "err = opts.SnapshotFilter.FindAll(ctx, snapshotLister, repo, opts.Snapshots,", New: "_ = snapshotLister\n	err = opts.SnapshotFilter.FindAll(ctx, repo, repo, opts.Snapshots,", Rule: "list-before-index"},
+		},
+	})
+	register(&Property{
+		ID: "C16",
+		Explanation: "Decides the mechanism that prevents double storage under every schedule: (addpending-atomic) in MasterIndex.AddPending the pending lookup, the lookups in all loaded indexes and the pending insert — and in storePack the pending delete and the index insert — are performed with the WRITE lock idxMutex held and without releasing it in between; AddPending returns true only after the insert and only if every Index.Has returned false; (index-locks) all other accesses to MasterIndex.idx/pendingBlobs and Index.byType/packs/final/ids hold the respective lock in the required mode (frozen, named exceptions for constructors and single-threaded phases; 'caller holds lock' helpers are verified at every call site); (save-only-if-new) saveAndEncrypt is reachable only through AddPending==true or storeDuplicate, with the reserved id being the stored id, and has no other caller; (store-duplicate-sites) the constant true for storeDuplicate occurs only in repack and pack repair. Not decided: that unchanged files are detected as unchanged (C40).",
+		Assumptions: append([]string{"sync.RWMutex provides mutual exclusion"}, commonAssumptions...),
+		Technique:   "static analysis: must-hold lockset dataflow + critical-section continuity + CFG edge cuts (go/ssa)",
+		Run: func(c *eng.Ctx) {
+			ruleAddPendingAtomic(c)
+			ruleGuardedFields(c, masterIndexGuard)
+			ruleGuardedFields(c, indexGuard)
+			ruleFinalizeSites(c)
+			ruleSaveOnlyIfNew(c)
+			ruleStoreDuplicateSites(c)
+		},
+		Controls: []Control{
+			{Name: "addpending-read-lock", File: "internal/repository/index/master_index.go",
+				Old: "func (mi *MasterIndex) AddPending(bh restic.BlobHandle, size uint) bool {\n\n	mi.idxMutex.Lock()\n	defer mi.idxMutex.Unlock()", New: "func (mi *MasterIndex) AddPending(bh restic.BlobHandle, size uint) bool {\n\n	mi.idxMutex.RLock()\n	defer mi.idxMutex.RUnlock()", Rule: "addpending-atomic"},
+			{Name: "addpending-split-sections", File: "internal/repository/index/master_index.go",
+				Old: "	// really not known -> insert\n	mi.pendingBlobs[bh] = size", New: "	// really not known -> insert\n	mi.idxMutex.Unlock()\n	mi.idxMutex.Lock()\n	mi.pendingBlobs[bh] = size", Rule: "addpending-atomic"},
+			{Name: "always-store-known-blobs", File: "internal/repository/repository.go",
+				Old: "	if !known || storeDuplicate {\n		size, err = r.saveAndEncrypt(ctx, t, buf, newID)\n	}", New: "	size, err = r.saveAndEncrypt(ctx, t, buf, newID)", Rule: "save-only-if-new"},
+			{Name: "unlocked-lookup", File: "internal/repository/index/master_index.go",
+				Old: "func (mi *MasterIndex) Lookup(bh restic.BlobHandle) []*pack.PackedBlob {\n	mi.idxMutex.RLock()\n	defer mi.idxMutex.RUnlock()\n", New: "func (mi *MasterIndex) Lookup(bh restic.BlobHandle) []*pack.PackedBlob {\n", Rule: "index-locks"},
+		},
+	})
+	register(&Property{
 		ID: "C03",
 		Explanation: "Decides necessary conditions of corruption reporting: (mac-before-decrypt) Key.Open decrypts and returns nil only after poly1305Verify succeeded; (open-error-used) at every Key.Open call site the error is examined and no nil-error return is reachable from a failed Open; (nil-only-after-hash) blob and file load paths return success only after the hash comparison; (accumulator) errors appended to the local error lists of checkPackInner, checker.checkTree, loadSnapshotTreeIDs and Checker.LoadIndex reach the result or a len()!=0 test before any success return; (checkpack-guards) checkPackInner succeeds only after download, sha256-of-stream == pack ID and header decode; (check-exit) in runCheck every nil-error return lies on the false edge of one errors-found flag, every error received from the three checker channels sets that flag on every path (sole exception: orphaned packs) and a non-empty LoadIndex error list forces failure. Not decided: that every byte flip is detected (strength of Poly1305/SHA-256, zstd framing).",
 		Assumptions: commonAssumptions,
